@@ -200,6 +200,7 @@ json::Value Ctx::expr(const Expr *E0) {
     }
     if (isConst && !BO->isAssignmentOp()) { O["k"] = "int"; O["v"] = (int64_t)cv; return std::move(O); }
     O["k"] = "bin"; O["op"] = BO->getOpcodeStr().str(); O["l"] = expr(BO->getLHS()); O["r"] = expr(BO->getRHS());
+    O["ty"] = typeStr(BO->getType());
     if (BO->isAssignmentOp()) { auto it = eventId.find(BO); if (it != eventId.end()) O["ev"] = it->second; }
     return std::move(O);
   }
@@ -209,6 +210,7 @@ json::Value Ctx::expr(const Expr *E0) {
   }
   if (auto *CE = dyn_cast<CallExpr>(E)) {
     O["k"] = "callref";
+    O["ty"] = typeStr(CE->getType());
     auto it = eventId.find(CE);
     if (it != eventId.end()) O["ev"] = it->second;
     if (const FunctionDecl *FD = CE->getDirectCallee()) O["callee"] = FD->getNameAsString();
